@@ -368,7 +368,8 @@ def unquoted_strings(draw, allow_colon=False, classes=("id", "plain1", "id_plain
     elif cls == "plain1":
         text = draw(st.sampled_from(list(PLAIN_START))) + draw(UNQ_REST)
     elif cls == "id_plain":
-        text = draw(IDENT) + draw(st.sampled_from(list(PLAIN_START))) + draw(UNQ_REST)
+        # (the text after the identifier may also start with a letter of another alphabet: not part of the identifier)
+        text = draw(IDENT) + draw(st.sampled_from(list(PLAIN_START) + list("\u00e9\u00f6\u03bb\u00df"))) + draw(UNQ_REST)
     else:
         words = draw(st.lists(st.one_of(IDENT, st.integers(0, 999).map(str), st.sampled_from(["1.50", "v1.50x", "a+1", "x-2"])),
                               min_size=2, max_size=4))
